@@ -558,3 +558,45 @@ def const_set(tier):
     structs = [dataclasses.replace(s, ctab=True) for s in structs]
     eds = enum_set('quick')[::(12 if tier == 'quick' else 2)]
     return structs, eds
+
+
+# ------------------------------------------------------------------------------------------------
+# BEYOND: declarations that address bits at or above the declared base width (invalid by C09's rule).
+# They must be rejected; C11 / C16 explore whichever of them the compiler nevertheless accepts.
+
+def beyond_structs(tier):
+    out = []
+    bases = [n for n in range(1, 17)] + list(L.wide_bases(tier))
+    for n in bases:
+        W = storage(n)
+        cands = []
+        if n < W:
+            cands.append(Field([(n, 1)], 'b'))
+            cands.append(Field([(W - 1, 1)], 'b'))
+            cands.append(Field([(n, 1)], 'u'))
+            if n + 2 <= W:
+                cands.append(Field([(n, 2)], 'u'))
+            if n >= 1:
+                cands.append(Field([(n - 1, 2)], 'u'))                     # straddles the declared top bit
+            if W - n >= 3 and n >= 1:
+                cands.append(Field([(n - 1, W - n + 1)], 'u' if (W - n + 1) not in NATIVE else 'n'))
+            if n >= 8 and n + 1 <= W:
+                cands.append(Field([(n - 7, 8)], 'i'))
+                cands.append(Field([(n - 7, 8)], 'n'))
+            if n >= 2:
+                cands.append(Field([(n - 2, 1)], 'b', arr=(3, 1), stride_explicit=False))   # last element at bit N
+                cands.append(Field([(0, 1), (n, 1)], 'u'))
+                cands.append(Field([(n, 1), (0, 1)], 'u'))
+            if n >= 4 and n + 1 <= W:
+                cands.append(Field([(0, 1), (2, 1)], 'u', arr=(2, n - 2)))                  # second element reaches bit N
+        # beyond the storage as well
+        cands.append(Field([(W, 1)], 'b'))
+        cands.append(Field([(W - 1, 2)], 'u')) if W >= 2 else None
+        cands.append(Field([(W + 8, 1)], 'b'))
+        cands.append(Field([(W - 1, 1)], 'b', arr=(2, 1), stride_explicit=False))
+        for f in cands:
+            if f is None:
+                continue
+            f.family = 'BEYOND'
+            out.append(Struct(n, [f], family='BEYOND', passes=[('full', 'full')] if n <= 16 else [('alpha', 'alpha')]))
+    return out
